@@ -625,7 +625,12 @@ def run(tier, seed, replay=None):
     ctx.notes.append("defect-site forms of the working tree: %s" % json.dumps(VARIANTS, sort_keys=True))
     # -k and the model targets first: the models must be rebuilt from the new Gen even when a proof breaks
     ok = core.proof_stage(ctx, ["-k", "Model/C20Case2.vo", "Props/C20.vo"], gen_needed=("ReaderLoops", "CharClasses"))
-    if not ok:
+    # translator tie (Props/C20Gen.v): the FASTA / PHYLIP readers generated from the source (Gen/CharIO.v,
+    # py/dv/gen_chario.py) equal the models of C20Model.v, so the totality theorems hold of generated code; and
+    # NexusReader._parse_format_statement / _read_character_states (Gen/NexusChars.v, py/dv/gen_nexuschars.py)
+    # equal the skeleton's parse_format / read_character_states
+    ok_gen = core.proof_stage(ctx, ["-k", "Props/C20Gen.vo"], props_file="Props/C20Gen.v", gen_needed=("CharIO", "NexusChars"))
+    if not (ok and ok_gen):
         core.broken_proof(ctx, search)
 
     cases = G.cases(ctx.rng, tier)
